@@ -759,6 +759,10 @@ for _nb, _tier in ((6, 'quick'), (8, 'thorough')):
     bound='native grid under ASan/UBSan/LSan with the assertions of h_setof_oer.c (one-shot, two chunks, three chunks with an empty middle one): 5 quantity field forms x n = 0..5 x every string of at most %d element octets' % _nb + ' over {00, 01, 7f, ff} x every truncation x every split point',
     timeout=1500)
 
+O(id='oer_fetch_quantity', props=['C03', 'C04', 'C15', 'C19'], kind='width', entry='h_oer_fetch_quantity', enforce=['oer_fetch_quantity'], functions=['oer_fetch_quantity', 'oer_fetch_length'],
+  harness='harness/h_oer_quantity.c', units=[SK + 'constr_SET_OF_oer.c', SK + 'oer_support.c'], link=[SK + 'oer_support.c'], include=['contracts/constr_SET_OF_oer.h'], backends=['sat', 'cvc5'],
+  unwind=14, bound='loops bounded by the input: every input of at most 12 octets in an exact-size heap buffer (unwind 14, unwinding assertions)', min_props=30, timeout=600)
+
 for _o in OBLIGATIONS:
     if _o.get('enforce') and _o.get('kind') in ('enforce', 'width') and _o.get('tier') == 'quick' and 'C19' not in _o['props']:
         _o['props'] = _o['props'] + ['C19']
